@@ -152,6 +152,8 @@ def check(ctx):
                 b[off:off + 2] = rnd.choice([0, 1, 2, 6, 7]).to_bytes(2, "little")
         direct.append("ie %s %s" % (rnd.choice(["rsn", "wpa"]), bytes(b).hex() or "-"))
     fw.run_suite(ctx, exe, "S-sec/direct", direct, "RSN / WPA element decode")
+    ci = fw.corpus_inputs(ctx, random.Random(ctx.seed + 78))
+    fw.run_suite(ctx, exe, "S-sec/corpus", ["mp %d %s" % (rt, b.hex() or "-") for rt, b in ci], "security classification (coverage-guided corpus + mutants)")
     fw.conclude(ctx, broken)
 
 
